@@ -429,6 +429,11 @@ def r5(fx):
             inv = __import__('vstatic.canon', fromlist=['inventory']).inventory().get(fi.key[0], {})
             if roots == {fi.key} and fi.key[1] not in inv.get('functions', ()):
                 continue        # a new helper whose calls were all inlined by the canonicaliser: its definition is dead code
+            # entry points the reference tree does not have (new public functions) are outside the calls the property quantifies over
+            full_inv = __import__('vstatic.canon', fromlist=['inventory']).inventory()
+            roots = {r for r in roots if r[1] in full_inv.get(r[0], {}).get('functions', ()) or r == fi.key}
+            if not roots or (roots == {fi.key} and fi.key[1] not in inv.get('functions', ())):
+                continue
             if roots != {('encoder', 'encode')}:
                 raise Unknown(f'{fi.name} calls find_version with a non-constant micro argument and is reached from {sorted(roots)}: no rule for this caller')
     # mask_scores: width == height on its call chain: _encode -> mask selection -> evaluate_mask -> mask_scores
